@@ -48,9 +48,9 @@ from hippolyzer.lib.base import llsd
 from hippolyzer.lib.base.datatypes import UUID
 from hippolyzer.lib.base.message.message import Block, Message
 
-from hmc import explore
+from hmc import explore, vloop
 from hmc.core import Run
-from hmc.httpharness import CLIENT_ADDR, Env, REGION_ADDRS, REGION_HANDLES, cap_url, seed_url, session_uuid
+from hmc.httpharness import CLIENT_ADDR, Env, REGION_ADDRS, REGION_HANDLES, cap_url, restore_uuid4, seed_url, session_uuid
 
 LEVEL = "model_checking"
 
@@ -339,6 +339,7 @@ class Harness:
 
     def _poll(self, w: World, ackmode: str, sim: str, swallow: str, delivery: str):
         m, env = w.m, w.env
+        w.addon.arm("none")
         ack = m.ack if ackmode == "cur" else m.prev["ack"]
         oblig = m.prev is not None and m.prev["ack"] == ack and m.prev["body"] is not None
         flow = env.new_flow(EQ_URL, "POST", llsd.format_xml({"ack": ack, "done": False}),
@@ -569,6 +570,7 @@ def searches(tier: str):
 
 
 def run(run: Run):
+    import time
     run.rule = ("explicit-state BFS over poll rounds {ack cur|repeat} x {simulator answer} x {addon swallows none|first|all} x "
                 "{delivered|lost}, injections and region teardown, driven through the real pump_proxy_event; non-trivial = "
                 "distinct states whose last step replayed a cached answer, merged an injection, swallowed an event, emptied a "
@@ -596,6 +598,9 @@ def run(run: Run):
                 small = explore._minimise_tuples(h, hist, v["clause"], v["site"])
                 v["witness"] = {"config": h.config(), "history": [list(e) for e in small]}
                 break
+    restore_uuid4()
+    vloop.uninstall()
+    run.coverage_extra["wall"] = round(time.time() - run.t0, 1)
 
 
 def replay(witness):
